@@ -1,5 +1,6 @@
 import Driver.PyGenCmp
 import Driver.Tax
+import Driver.C16
 
 /-! Operations of the Python-translator tie that have no counterpart among the per-property operations, and the validation of the
 run-time library's built-ins (`pyrt.*`) against CPython. -/
@@ -91,7 +92,27 @@ def handle : List String → Option String
     pure (expect s!"{Py.floorDiv a b},{Py.pyMod a b}" real)
   | ["pyrt.lineage", f, t, real] => do
     let F ← Driver.Tax.parseForest f
-    pure (expect (natsOf (F.lineage (← t.toNat?))) real)
+    let t ← t.toNat?
+    let r := expect (natsOf (F.lineage t)) real
+    if r != "ok" then pure r else
+    pure ((taxonAncestors F t true real).getD "ok")
+  | ["pyg.ancestors", f, t, inc, real] => do
+    let F ← Driver.Tax.parseForest f
+    pure ((taxonAncestors F (← t.toNat?) (inc == "1") real).getD "ok")
+  | ["pyg.seqfiles", positional, lines, ldir, real] => do
+    let pos ← Driver.C16.parseStrs positional
+    let lines ← if lines == "~" then some none else (Driver.C16.parseStrs lines).map some
+    let ldir ← Driver.C16.strOfHex ldir
+    pure ((seqFiles pos lines ldir (String.ofList (← Driver.C16.strOfHex real))).getD "ok")
+  -- text and path built-ins of the run-time library against CPython / pathlib
+  | ["pyrt.strip", s, real] => do
+    pure (expect (String.ofList (Py.strStrip (← Driver.C16.strOfHex s))) (String.ofList (← Driver.C16.strOfHex real)))
+  | ["pyrt.rstripnl", s, real] => do
+    pure (expect (String.ofList (Py.strRstripChar '\n' (← Driver.C16.strOfHex s))) (String.ofList (← Driver.C16.strOfHex real)))
+  | ["pyrt.pathstr", s, real] => do
+    pure (expect (String.ofList (Py.pathStr (← Driver.C16.strOfHex s))) (String.ofList (← Driver.C16.strOfHex real)))
+  | ["pyrt.pathjoin", a, b, real] => do
+    pure (expect (String.ofList (Py.pathJoin (Py.pathStr (← Driver.C16.strOfHex a)) (← Driver.C16.strOfHex b))) (String.ofList (← Driver.C16.strOfHex real)))
   | _ => none
 
 end Driver.PyGen
